@@ -78,12 +78,41 @@ def shape_display(v):
   return d
 
 
-SHAPES = {"nested": shape_nested, "regions": shape_regions, "display": shape_display}
+def shape_background(v):
+  """region backgrounds decided by specified values, an <initial> value and animation, at instants outside the text content;
+  open-ended content before bounded content"""
+  nid = _ids()
+  d = m.ContentDocument()
+  d.put_initial_value(SP.BackgroundColor, sp.ColorType((0, 0, 255, 255)))
+  r1 = m.Region("r1", d); d.put_region(r1)
+  r1.set_style(SP.ShowBackground, sp.ShowBackgroundType.whenActive)
+  r1.set_style(SP.BackgroundColor, sp.NamedColors.red.value)
+  if v("sab") is not None or v("sae") is not None:
+    r1.add_animation_step(m.DiscreteAnimationStep(SP.ShowBackground, v("sab"), v("sae"), sp.ShowBackgroundType.always))
+  r2 = m.Region("r2", d); d.put_region(r2)          # background only from the <initial> value
+  r2.set_begin(v("r2b")); r2.set_end(v("r2e"))
+  r3 = m.Region("r3", d); d.put_region(r3)
+  r3.set_style(SP.BackgroundColor, sp.ColorType((0, 0, 0, 0)))
+  if v("gab") is not None or v("gae") is not None:
+    r3.add_animation_step(m.DiscreteAnimationStep(SP.BackgroundColor, v("gab"), v("gae"), sp.NamedColors.green.value))
+  body = m.Body(d); body.set_id(nid()); d.set_body(body)
+  div = m.Div(d); div.set_id(nid()); body.push_child(div)
+  p1 = m.P(d); p1.set_id(nid()); p1.set_region(r1); p1.set_begin(v("pb")); p1.set_end(v("pe")); div.push_child(p1)
+  s1 = m.Span(d); s1.set_id(nid()); p1.push_child(s1); s1.push_child(m.Text(d, "one"))
+  p2 = m.P(d); p2.set_id(nid()); p2.set_region(r2); div.push_child(p2)
+  s2 = m.Span(d); s2.set_id(nid()); p2.push_child(s2); s2.push_child(m.Text(d, "open"))
+  s3 = m.Span(d); s3.set_id(nid()); s3.set_begin(v("s3b")); s3.set_end(v("s3e")); p2.push_child(s3); s3.push_child(m.Text(d, "bounded"))
+  return d
+
+
+SHAPES = {"nested": shape_nested, "regions": shape_regions, "display": shape_display, "background": shape_background}
 # which of the timing variables are present (None otherwise); a few masks per shape keep the path count moderate
 MASKS = {
-  "nested": [("bb", "be", "pb", "pe"), ("db", "de", "s1b", "s1e"), ("pb", "pe", "s3b", "s3e"), ("be", "de", "pe", "s1e", "s3e"), ("bb", "db", "pb", "s1b", "s3b")],
+  "nested": [("bb", "be", "pb", "pe"), ("db", "de", "s1b", "s1e"), ("pb", "pe", "s3b", "s3e"), ("be", "de", "pe", "s1e", "s3e"), ("bb", "db", "pb", "s1b", "s3b"),
+             ("s1b", "s3b", "s3e"), ("db", "s1e", "s3e")],
   "regions": [("r1b", "r1e", "p1b", "p1e"), ("d2b", "d2e", "p3e"), ("r3b", "r1e", "d2e", "p1e"), ("r1b", "d2b", "p1b", "p3e")],
   "display": [("p1b", "p1e", "ab", "ae"), ("ab", "ae", "a2b"), ("cb", "ce", "s3b"), ("rab", "rae", "p1b"), ("p1e", "ae", "ce", "rae")],
+  "background": [("sab", "sae", "pb", "pe"), ("s3b", "s3e", "pe"), ("gab", "gae", "pe", "s3e"), ("r2b", "r2e", "s3e"), ("sab", "pe", "s3e")],
 }
 
 
